@@ -40,6 +40,9 @@ NOTES = [
     "an augmented assignment (x += 1) is not an occurrence of the binary symbol '+': the oracle counts BinOp/BoolOp/"
     "UnaryOp/Compare operator positions only, with the operator class CPython's own parser gives for `a <sym> b`",
     "ensure_import/prevent_import ignore at_least/at_most by documentation; they are checked at their defaults",
+    "the model has no notion of a Report: model and oracle are handed the tree of the program of the report that was "
+    "NAMED in the call (MAIN_REPORT when none is); which Report object holds it, and what the other live report holds "
+    "meanwhile (a decoy program / nothing), is varied on the real-code side only",
 ]
 
 
@@ -68,15 +71,17 @@ SEED_PROGRAMS = [
 ]
 
 
-def evaluate_real(src, queries, rng, full_rate):
+def evaluate_real(src, queries, rng, full_rate, where=None):
     """Run the real finders and ensure_/prevent_ checks for every query on `src` (main file under a default or a
-    non-default name; threshold passed by keyword, positionally, or through the alias / with an explicit root)."""
-    sc.load(src, rng.choice([None, None, "student_main.py", "hw/q1.py"]))
+    non-default name; threshold passed by keyword, positionally, or through the alias / with an explicit root).
+    `where` (sc.pick_where) says WHICH REPORT holds `src` and is named in every call (report=), and what the other
+    live report holds meanwhile (a decoy program / nothing); None = MAIN_REPORT alone, no report= given."""
+    sc.load(src, rng.choice([None, None, "student_main.py", "hw/q1.py"]), where)
     res = []
     # history dimension: the instructor may look at OTHER code through the public student_code= argument
     # (a reference solution, a snippet) between two checks of the submission; the default-root checks
     # must still talk about the student's program (stale "current tree" state would show here).
-    distract = rng.random() < 0.35
+    distract = rng.random() < (0.35 if where is None or where["mode"] == "main" else 0.5)
     if distract and rng.random() < 0.5:
         sc.distract(rng, src)          # even before the submission was ever parsed
     for q in queries:
@@ -94,6 +99,8 @@ def evaluate_real(src, queries, rng, full_rate):
             full = rng.random() < full_rate
             for thr in sc.thresholds_for(count, rng, full):
                 sp = rng.choice([0, 0, 1, 2])
+                if distract and rng.random() < 0.2:
+                    sc.distract(rng, src)      # also between the finder and the checks / two checks of one query
                 if thr != 0:
                     rec["checks"][("ensure", thr)] = sc.real_check(q, "ensure", thr, sp)
                 rec["checks"][("prevent", thr)] = sc.real_check(q, "prevent", thr, sp)
@@ -181,14 +188,16 @@ def judge(src, q, rec, tree=None):
     return None
 
 
-def shrink(src, q, signature, rng):
+def shrink(src, q, signature, rng, where=None):
     """Drop top-level statements while the same failure persists."""
     def fails(s):
         try:
             tree = ast.parse(s)
         except SyntaxError:
             return False
-        rec = evaluate_real(s, [q], rng, 1.0)[0]
+        if where is not None and where.get("decoy") == s:
+            return False
+        rec = evaluate_real(s, [q], rng, 1.0, where)[0]
         v = judge(s, q, rec, tree)
         return v is not None and v[0] == signature
     try:
@@ -251,7 +260,10 @@ def correspond(rng, tier, driver):
                 "every operator symbol CPython has (+ bogus ones), call names, literals (+ the same number in the other "
                 "scalar types), the six literal types, ~60 node names, module names; real = find_operation/"
                 "find_function_calls/find_asts and ensure_*/prevent_* at thresholds 0-4 and count-1..count+1; model = "
-                "Pedal.Static.uses/ensureFires/preventFires/reportedLine/hasImport on the harness-built tree; "
+                "Pedal.Static.uses/ensureFires/preventFires/reportedLine/hasImport on the harness-built tree OF THE "
+                "PROGRAM OF THE REPORT THAT WAS NAMED (which report: MAIN_REPORT by default / spelled out / an own Report() "
+                "while the other live report holds a decoy program or nothing; other code and the other report are looked "
+                "at between checks); "
                 "non-trivial = a query with at least one occurrence")
     progs = programs(rng, tier)
     cases, lines = [], []
@@ -262,13 +274,15 @@ def correspond(rng, tier, driver):
             continue
         big = sum(1 for _ in ast.walk(tree)) > 150
         qs = sc.queries_for(src, rng, full=not big)
-        real = evaluate_real(src, qs, rng, 0.15 if tier == "quick" else 0.3)
-        cases.append((origin, src, qs, real))
+        where = sc.pick_where(rng, src)
+        real = evaluate_real(src, qs, rng, 0.15 if tier == "quick" else 0.3, where)
+        cases.append((origin, src, qs, real, where))
         lines.append(sc.request_line(src, qs))
     answers = driver.ask(lines)
-    for (origin, src, qs, real), line, ans in zip(cases, lines, answers):
+    for (origin, src, qs, real, where), line, ans in zip(cases, lines, answers):
         model = sc.parse_answer(ans, len(qs))
         res.count("origin:" + origin.split(":")[0])
+        res.count("report:" + where["mode"])
         if model is None:
             res.evaluations += 1
             res.disagreements.append({"case": {"src": src}, "real": "-", "model": ans[:200], "fields": ["bad-request"]})
@@ -284,7 +298,7 @@ def correspond(rng, tier, driver):
             if cnt:
                 res.nontrivial.add(json.dumps([src, q_json(q)]))
             if bad:
-                res.disagreements.append({"case": {"src": src, "query": q_json(q)}, "fields": bad,
+                res.disagreements.append({"case": {"src": src, "query": q_json(q), "where": where}, "fields": bad,
                                           "real": {"find": rec["find"], "checks": {"%s@%s" % k: v for k, v in rec["checks"].items()}},
                                           "model": m})
     res.samples = [{"src": c[1][:300], "queries": len(c[2])} for c in cases[-3:]]
@@ -308,15 +322,19 @@ def search(rng, tier, broken, corr):
     info = {"rule": "real finders and ensure_/prevent_ checks vs counting with plain ast.walk (operator class from CPython's "
                     "own parse of the symbol; literal = same value AND same type; Num/Str/Bool by the constant's type); the "
                     "correspondence programs, more generated programs and (thorough) every program of <= 2 statements "
-                    "over a 24-statement alphabet; thresholds 0-4 and count-1..count+1",
-            "evaluations": 0, "distinct_nontrivial": 0, "samples": [], "skipped": {}}
+                    "over a 24-statement alphabet; thresholds 0-4 and count-1..count+1; every program under one of "
+                    "five which-report set-ups (the oracle walks the program of the report that was named; the other live "
+                    "report holds a decoy program or nothing)",
+            "evaluations": 0, "distinct_nontrivial": 0, "samples": [], "skipped": {}, "which_report": {}}
     failures, seen_sigs, nt = [], set(), set()
 
-    def consider(src, qs, real):
+    def consider(src, qs, real, where=None):
         try:
             tree = ast.parse(src)
         except SyntaxError:
             return
+        mode = "main" if where is None else where["mode"]
+        info["which_report"][mode] = info["which_report"].get(mode, 0) + len(qs)
         for q, rec in zip(qs, real):
             info["evaluations"] += len(rec["checks"]) + (1 if rec["find"] is not None else 0)
             v = judge(src, q, rec, tree)
@@ -329,19 +347,36 @@ def search(rng, tier, broken, corr):
             if v is None or len(failures) >= 8:
                 continue
             sig, what, _ = v
-            key = json.dumps(sig, sort_keys=True)
+            w = where
+            if mode != "main":
+                # does it need the "which report" set-up at all?  (the same failure with everything on MAIN_REPORT
+                # is reported as the plain one)
+                vm = judge(src, q, evaluate_real(src, [q], rng, 1.0, None)[0], tree)
+                if vm is not None and vm[0] == sig:
+                    w, v = None, vm
+            elif mode == "main":
+                w = None
+            full_sig = dict(sig) if w is None else dict(sig, report=w["mode"])
+            key = json.dumps(full_sig, sort_keys=True)
             if key in seen_sigs:
                 continue
             seen_sigs.add(key)
-            small = shrink(src, q, sig, rng)
-            rec2 = evaluate_real(small, [q], rng, 1.0)[0]
+            small = shrink(src, q, sig, rng, w)
+            rec2 = evaluate_real(small, [q], rng, 1.0, w)[0]
             v2 = judge(small, q, rec2)
             if v2 is None or v2[0] != sig:
                 small, v2 = src, v
-            failures.append(Failure(sig, v2[1], {"src": small, "query": q_json(q)}))
+            text = v2[1]
+            rp = {"src": small, "query": q_json(q)}
+            if w is not None:
+                text += " [report: %s%s%s]" % (w["mode"], "" if w["decoy"] is None else
+                                               "; the other report holds %r" % w["decoy"][:120],
+                                               "; Source verified both first" if w.get("verify") else "")
+                rp["where"] = w
+            failures.append(Failure(full_sig, text, rp))
 
-    for origin, src, qs, real in getattr(corr, "cases", []):
-        consider(src, qs, real)
+    for origin, src, qs, real, where in getattr(corr, "cases", []):
+        consider(src, qs, real, where)
         if len(failures) >= 8:
             break
     gen = sc.Gen(rng)
@@ -355,7 +390,8 @@ def search(rng, tier, broken, corr):
         if len(failures) >= 8:
             break
         small_q = [q for q in sc.queries_for(src, rng, full=False)]
-        consider(src, small_q, evaluate_real(src, small_q, rng, 0.3))
+        where = sc.pick_where(rng, src)
+        consider(src, small_q, evaluate_real(src, small_q, rng, 0.3, where), where)
     # the finders asked about EXPLICITLY given code (student_code= / root=parse_program(code)) while the submission
     # is some other, non-empty program: they must walk the code they were given - the empty program, a
     # comment-only one and `pass` included (no occurrence of anything)
@@ -368,7 +404,10 @@ def search(rng, tier, broken, corr):
                 break
             for q in [("ast", "While"), ("ast", "Call"), ("ast", "BinOp"), ("ast", "Name"), ("ast", "Compare"),
                       ("op", "+"), ("op", "<"), ("call", "print")]:
-                got = sc.real_find_explicit(q, sub, code)
+                where = None if rng.random() < 0.5 else sc.pick_where(rng, sub)
+                got = sc.real_find_explicit(q, sub, code, where)
+                if where is not None and not isinstance(got, dict) and got == sc.real_find_explicit(q, sub, code):
+                    where = None              # the plain set-up answers the same: not a which-report matter
                 n_explicit += 1
                 want = sc.oracle_nodes(ast.parse(code), q)
                 if want is None or got is None:
@@ -377,13 +416,46 @@ def search(rng, tier, broken, corr):
                 if isinstance(got, dict) or sorted(got) != exp:
                     sig = {"fails": "finder", "query": q[0], "explicit_code": "empty" if not code.strip() else
                            ("trivial" if len(code) < 20 else "program")}
+                    if where is not None:
+                        sig["report"] = where["mode"]
                     key = json.dumps(sig, sort_keys=True)
                     if key not in seen_sigs:
                         seen_sigs.add(key)
                         failures.append(Failure(sig, "%s(%r) asked about explicitly given code %r (submission: another "
                                                      "program) returned %r, a plain walk of that code finds %r"
                                                 % (q[0], q[1], code, got, exp),
-                                                {"src": sub, "explicit_code": code, "query": q_json(q)}))
+                                                {"src": sub, "explicit_code": code, "query": q_json(q), "where": where}))
+    # the remaining find_* entry points that take report= (function_is_called, find_function_definition) under every
+    # which-report set-up: the number of calls / a definition OF THE PROGRAM OF THE REPORT THAT WAS NAMED
+    extra_progs = ["def f(x):\n    return f(x - 1)\nprint(f(2), f)\n",
+                   "class A:\n    def g(self):\n        def h():\n            pass\n        return self.g(h())\n", "x = 1\n"]
+    extra_progs += [gen.program(max_stmts=4) for _ in range(4 if tier == "quick" else 40)]
+    n_extra = 0
+    for sub in extra_progs:
+        for mode in sc.WHERE_MODES:
+            if len(failures) >= 8:
+                break
+            where = {"mode": mode, "decoy": None if mode in ("main", "own+empty") else sc.decoy_for(rng, sub),
+                     "verify": rng.random() < 0.4}
+            for entry, name, got, want, ok in sc.real_extra(sub, where):
+                n_extra += 1
+                if ok:
+                    continue
+                plain = [r for r in sc.real_extra(sub, None) if r[0] == entry and r[1] == name and not r[4]]
+                sig = {"fails": "finder", "query": entry}
+                if not plain and mode != "main":
+                    sig["report"] = mode
+                key = json.dumps(sig, sort_keys=True)
+                if key in seen_sigs:
+                    continue
+                seen_sigs.add(key)
+                failures.append(Failure(sig, "%s(%r) returned %r, the program of the named report has %r%s"
+                                        % (entry, name, got, want, "" if "report" not in sig else
+                                           " [report: %s; the other report holds %r]" % (mode, where["decoy"])),
+                                        {"extra": entry, "name": name, "src": sub,
+                                         "where": where if "report" in sig else None}))
+    info["evaluations"] += n_extra
+    info["extra_entry_point_queries"] = n_extra
     info["evaluations"] += n_explicit
     info["explicit_code_queries"] = n_explicit
     info["distinct_nontrivial"] = len(nt)
@@ -397,8 +469,24 @@ def replay(payload):
         print(json.dumps(payload, indent=1)[:4000])
         return 0
     import random
-    src, q = rp["src"], q_from_json(rp["query"])
-    rec = evaluate_real(src, [q], random.Random(0), 1.0)[0]
+    src, q = rp["src"], (q_from_json(rp["query"]) if "query" in rp else None)
+    where = rp.get("where")
+    if where is not None:
+        print("which report:", where["mode"], "- the other report holds:", repr(where["decoy"]))
+    if "extra" in rp:
+        print("program:\n" + src)
+        for r in sc.real_extra(src, where):
+            if r[0] == rp["extra"] and r[1] == rp["name"]:
+                print("%s(%r) -> %r; the program has %r; ok=%s" % r)
+        return 0
+    if "explicit_code" in rp:
+        print("submission:\n" + src)
+        print("explicitly given code:", repr(rp["explicit_code"]), "query:", rp["query"])
+        print("real finder:", sc.real_find_explicit(q, src, rp["explicit_code"], where))
+        want = sc.oracle_nodes(ast.parse(rp["explicit_code"]), q)
+        print("plain ast.walk of the given code finds:", None if want is None else sorted(sc.node_key(n) for n in want))
+        return 0
+    rec = evaluate_real(src, [q], random.Random(0), 1.0, where)[0]
     tree = ast.parse(src)
     occ = sc.oracle_nodes(tree, q)
     print("program:\n" + src)
